@@ -888,7 +888,10 @@ def _c29_judge(ctx, case, r):
         want_refuse = None
         if case.desc["block"]["k"] in ("cross", "multicross") and r[0] in ("exc", "ok"):
             ncross = 1 if case.desc["block"]["k"] == "cross" else len(case.desc["block"]["crossings"])
-            wins = [fsm[i]["window"]["kind"] for i in D.block_design_ids(case.desc["block"]) if fsm[i]["window"]]
+            # SMGen reads a derived factor's kind off its *first* level; the window of an ElseLevel is a general Window,
+            # so a factor that lists its ElseLevel first is refused like one with a general window
+            wins = [("window" if fsm[i]["levels"][0].get("else") else fsm[i]["window"]["kind"])
+                    for i in D.block_design_ids(case.desc["block"]) if fsm[i]["window"]]
             want_refuse = ctx.drv().ask({"op": "conform", "m": "smgen_refuses", "n": ncross, "kinds": sorted(ks), "windows": wins})["ok"]
             refused = r[0] == "exc" and r[1] == "Exception" and ("nsupported" in r[2] or "not supported" in r[2])
             arity = any(fsm[i]["window"] and fsm[i]["window"]["kind"] == "transition" and len(fsm[i]["window"]["deps"]) > 1
